@@ -255,6 +255,10 @@ func HarnessStableBolt() {
 		return
 	}
 	val := vrt.Bytes("val", 1+vrt.Choice("vlen", 3))
+	if vrt.Param("bigval", 1) == 1 {
+		// large enough that the real bbolt serves it straight from its mmap'd page
+		val = append(val, make([]byte, 2048)...)
+	}
 	n0 := len(vrt.Events())
 	vrt.Assert("C08.bolt-set-ok", db.SetStable([]byte("k"), val) == nil)
 	committed, onlyStable := !vrt.Symbolic(), true // natively the bbolt calls are not observable: trivially true
@@ -268,6 +272,12 @@ func HarnessStableBolt() {
 	vrt.Assert("C08.bolt-set-commits", committed)
 	got, err := db.GetStable([]byte("k"))
 	vrt.Assert("C08.bolt-get-latest", err == nil && bytes.Equal(got, val))
+	// a value handed out by GetStable stays what it was while other keys are written
+	// (bbolt recycles pages: a slice into its mmap changes under the caller's feet)
+	vrt.Assert("C08.bolt-set-other-ok", db.SetStable([]byte("other"), []byte("dCurrentTerm")) == nil)
+	vrt.Assert("C08.bolt-set-other-ok", db.SetStable([]byte("other"), []byte("a-longer-value-for-the-other-key")) == nil)
+	vrt.Assert("C08.bolt-set-other-ok", db.SetStable([]byte("other"), []byte("x")) == nil)
+	vrt.Assert("C08.bolt-returned-value-stable-across-later-commits", bytes.Equal(got, val))
 	if len(got) > 0 {
 		got[0] ^= 0xff
 		again, _ := db.GetStable([]byte("k"))
